@@ -71,6 +71,9 @@ fn main() {
     let iters = kverif::arg_u64(&a, "iters", 3000);
     let maxthreads = kverif::arg_u64(&a, "max-threads", 16);
     let long_every = kverif::arg_u64(&a, "long-every", 400);
+    let long_hold_ms = kverif::arg_u64(&a, "long-hold-ms", 1500);
+    let long_rounds = kverif::arg_u64(&a, "long-rounds", 1);
+    let mut long_holds = 0u64;
     let grace = Duration::from_millis(kverif::arg_u64(&a, "grace-ms", 20_000));
     let cap = Duration::from_millis(kverif::arg_u64(&a, "cap-ms", 300_000));
     #[cfg(feature = "tsan")]
@@ -119,6 +122,49 @@ fn main() {
             // and once the holder left, a blocking acquisition succeeds
             let g = m.lock();
             drop(g);
+        }
+        // --- a very long hold: waiters go through every phase of the back-off (including whatever happens when
+        //     its spin budget is exhausted) and must still get the lock once the holder leaves -----------------
+        if round < long_rounds {
+            stuck::reset_all();
+            let g = m.lock();
+            let mut ws = vec![];
+            for t in 0..3usize {
+                let m = m.clone();
+                let c = c.clone();
+                ws.push(std::thread::spawn(move || {
+                    let slot = stuck::slot(t);
+                    slot.begin_thread();
+                    slot.enter(true, 7);
+                    let mut g = m.lock();
+                    slot.leave();
+                    if g.owner.swap(t as u32 + 1, Relaxed) != 0 {
+                        c.overlap.fetch_add(1, Relaxed);
+                    }
+                    g.gen += 1;
+                    g.sum = g.a ^ g.gen;
+                    g.owner.store(0, Relaxed);
+                    slot.finish();
+                }));
+            }
+            std::thread::sleep(Duration::from_millis(if cfg!(miri) { 1 } else { long_hold_ms }));
+            drop(g);
+            long_holds += 1;
+            match stuck::join_all(ws, grace, cap) {
+                Ok(_) => {}
+                Err(JoinErr::Stuck(v)) => {
+                    viol.push(format!("after a hold of {} ms, lock() did not return although the holder has left: {:?}", long_hold_ms, v));
+                    break;
+                }
+                Err(JoinErr::Inconclusive(s)) => {
+                    inconclusive.push(s);
+                    break;
+                }
+                Err(JoinErr::Panicked(i, m)) => {
+                    viol.push(format!("waiter {} panicked: {}", i, m));
+                    break;
+                }
+            }
         }
         // --- contention -------------------------------------------------------------------------
         stuck::reset_all();
@@ -208,6 +254,8 @@ fn main() {
         ("try_lock_ok".into(), J::U(c.try_ok.load(Relaxed))),
         ("try_lock_failed".into(), J::U(c.try_failed.load(Relaxed))),
         ("try_lock_against_frozen_holder".into(), J::U(frozen_try)),
+        ("very_long_holds_survived".into(), J::U(long_holds)),
+        ("very_long_hold_ms".into(), J::U(long_hold_ms)),
         ("max_simultaneous_waiters".into(), J::U(c.max_waiting.load(Relaxed) as u64)),
         ("hold_classes".into(), J::A(c.hold.iter().map(|h| J::U(h.load(Relaxed))).collect())),
         ("inconclusive".into(), J::A(inconclusive.iter().map(|s| J::s(s.clone())).collect())),
